@@ -137,6 +137,12 @@ pub fn name_queries(r: &RefFile<'_>, rng: &mut crate::rng::Rng, max: usize) -> V
             }
         }
     }
+    // the string literals of the crate's own code with common tails: siblings of names the code may treat specially
+    for lit in crate::abi_table::SRC_STRINGS.iter().take(24) {
+        for tail in ["", "info", "x"] {
+            special.push(format!("{lit}{tail}"));
+        }
+    }
     v.push(".absent".to_string());
     v.push(String::new());
     rng.shuffle(&mut v);
@@ -391,32 +397,7 @@ fn sparse_case(ctx: &mut Ctx, enc: Enc) {
     let b = build(&spec, &mut ctx.rng);
     let data = &b.bytes[..];
     let Ok(r) = ref_open(data, &[1, 2]) else { return };
-    // every (start, end) of a structure in the file
-    let mut ranges: Vec<(u64, u64)> = Vec::new();
-    let ehsize = if enc.c64 { 64 } else { 52 };
-    ranges.push((0, ehsize));
-    if let Some((off, n)) = r.shdrs {
-        ranges.push((off as u64, off as u64 + (n * crate::codec::size_of(crate::codec::St::Shdr, enc.c64)) as u64));
-    }
-    if let Some((off, n)) = r.phdrs {
-        ranges.push((off as u64, off as u64 + (n * crate::codec::size_of(crate::codec::St::Phdr, enc.c64)) as u64));
-    }
-    for i in 0..r.shnum() {
-        if let Some(sh) = r.shdr(i) {
-            if sh.get("sh_type") != k::SHT_NOBITS as u64 && sh.get("sh_type") != 0 {
-                ranges.push((sh.get("sh_offset"), sh.get("sh_offset").saturating_add(sh.get("sh_size"))));
-            }
-        }
-    }
-    for i in 0..r.phnum() {
-        if let Some(ph) = r.phdr(i) {
-            ranges.push((ph.get("p_offset"), ph.get("p_offset").saturating_add(ph.get("p_filesz"))));
-        }
-    }
-    let mut cands: Vec<u64> = ranges.iter().map(|x| x.0).filter(|s| *s >= ehsize && *s <= data.len() as u64).collect();
-    cands.sort();
-    cands.dedup();
-    cands.retain(|at| !ranges.iter().any(|(s, e)| s < at && at < e));
+    let cands = mutate::cut_points(&b);
     if cands.is_empty() {
         ctx.count("sparse:no-cut-point");
         return;
@@ -430,14 +411,7 @@ fn sparse_case(ctx: &mut Ctx, enc: Enc) {
         [room, room - 1, 0x8000_0000 - at.min(0x7fff_ffff), 0x7fff_0000, 0xf000_0000u64.min(room)][ctx.rng.usize_below(5)]
     };
     let mut shifted = b.clone();
-    let names: Vec<String> = shifted.fields.iter().map(|f| f.name.clone()).filter(|n| n == "ehdr.e_shoff" || n == "ehdr.e_phoff" || n.ends_with(".sh_offset") || n.ends_with(".p_offset")).collect();
-    for n in names {
-        let f = shifted.field(&n).cloned().unwrap();
-        let v = enc.get(&shifted.bytes, f.off, f.w).unwrap_or(0);
-        if v >= at && v != 0 {
-            shifted.poke(&n, v + hole);
-        }
-    }
+    mutate::relocate(&mut shifted, at, hole);
     if at.saturating_add(hole) >= 1 << 32 {
         ctx.count("sparse:offsets>=2^32");
     }
